@@ -20,7 +20,7 @@ THEOREMS = [P + t for t in (
     'C17_terminates', 'C17_ok_iff', 'C17_never_wrong', 'C17_depth_independent', 'C17_notfound', 'C17_notExist_only_if',
     'C17_otherwise', 'C17_cycle_real', 'C17_spec_reads_sentence', 'C17_stat_meets_spec', 'C17_open_meets_spec',
     'C17_readdir_follows_open', 'C17_open_then_stat', 'C17_outside', 'C17_outside_iff',
-    'C17_target_canonical', 'C17_stored_target')]
+    'C17_target_canonical', 'C17_stored_target', 'C17_loader_models_agree')]
 
 
 def _entries(case):
@@ -49,7 +49,10 @@ def run(ctx):
     ctx.assumptions = ['a view is a map from tree keys to nodes; only the FINAL path component is resolved (the code never resolves symlinked directories inside a path)',
                        'entry names are clean relative paths; tar hard links (TypeLink, which the loader treats like symlinks) are not generated',
                        'the specification reads link names lexically (path.Clean), as the loader does']
-    ctx.rule = ('case = one symlink graph (entries: F file, D dir, M missing, X deleted by layer 1, L symlink, Y symlink deleted by layer 1) observed at depths 0..6 in both views; '
+    ctx.rule = ('TIERS: the exhaustive enumeration the property asks for ("every symlink graph on up to 5 named entries x every maximum depth 0..6") is the THOROUGH tier: '
+                '6+64+1000+20736+537824 = 559 630 graphs, each loaded 7 times (depths 0..6) and observed in both views (Stat, Open, ReadDir of every entry), plus 20 000 random graphs and the corpus; '
+                'the QUICK tier is a seeded 3 000-graph sample plus the corpus and enumerates nothing exhaustively — an evidence file of tier quick does not claim the enumeration. '
+                'case = one symlink graph (entries: F file, D dir, M missing, X deleted by layer 1, L symlink, Y symlink deleted by layer 1) observed at depths 0..6 in both views; '
                 'thorough enumerates every graph on 1..5 names with relative and absolute canonical link spellings (6+64+1000+20736+537824 graphs; 5 names use the layout a,b,c,s/d,s/e); '
                 'random cases use up to 9 names in nested directories, 40% long chains, noisy/unclean/outside-root/empty link names. non-trivial = at least two symlink entries; '
                 'distinct = distinct case lines. oracle = specWalk verdict of the Lean driver (the sentence read strictly, on the graph whose links point where their names DENOTE by the specification\'s own lexical resolver) vs the implementation\'s Stat class, Open\'s own class and ReadDir\'s error class')
